@@ -197,6 +197,25 @@ func checkC11(c *Ctx, r *Report) {
 					}
 				}
 				if okAll {
+					// nothing else may touch the final name: removing or truncating it before the rename
+					// opens a window in which the message exists only under the temporary name
+					for _, other := range allCalls(fn) {
+						idxs, isMut := fsMutators[callName(other.Common())]
+						if !isMut || other == rn || !openFileWrites(other) {
+							continue
+						}
+						for _, i := range idxs {
+							if i < len(other.Common().Args) {
+								a := other.Common().Args[i]
+								if a == dst || pathOf(a) == pathOf(dst) {
+									okAll = false
+									why = fmt.Sprintf("%s at %s modifies the final name itself, apart from the rename: a crash between the two leaves no complete file under that name", callName(other.Common()), c.pos(other.Pos()))
+								}
+							}
+						}
+					}
+				}
+				if okAll {
 					_, dstIsParam := dst.(*ssa.Parameter)
 					verdict = fmt.Sprintf("written under a temporary name and renamed to the final name at %s after open, %d write(s) and close succeeded", c.pos(rn.Pos()), len(writes))
 					if dstIsParam {
